@@ -520,6 +520,19 @@ def _solve_portfolio(still, timeout_ms):
         best = dict(best)
         best["secs"] = max(r["secs"] for r in grp)
         res3.append(best)
+    # last resort for what every member left open (a timeout, typically on a loaded machine: the budgets are wall-clock): once
+    # more with four times the budget; costs nothing on a normal run
+    again = [k for k, r in enumerate(res3) if r["status"] == "unknown"]
+    if again and not os.environ.get("TVC_NO_RETRY"):
+        jobs4 = [(still[k][0], still[k][1], v) for k in again for v in (None, 1)]
+        res4 = _solve_forked(jobs4, 4 * timeout_ms, use_cvc5=True, par=2 * (PORTFOLIO + 1))
+        for n_, k in enumerate(again):
+            grp = res4[2 * n_:2 * n_ + 2]
+            hit = next((r for r in grp if r["status"] in ("proved", "refuted")), None)
+            if hit is not None:
+                hit = dict(hit)
+                hit["secs"] = res3[k]["secs"] + max(r["secs"] for r in grp)
+                res3[k] = hit
     return res3
 
 
